@@ -37,7 +37,7 @@ type Local struct {
 	SaveBatch   bool   `json:"savebatch"`
 	SaveInvocs  bool   `json:"saveinv"`
 	Preload     int    `json:"preload"`  // 0 none, 1 the block's own transactions, 2 half of them
-	FlushMode   int    `json:"flush"`    // 0 never (until the end), 1 every block, 2 tape-chosen boundaries, 3 Run() timer on the fake clock
+	FlushMode   int    `json:"flush"`    // 0 only timer ticks / close, 1 every block, 2 tape-chosen boundaries, 3 concurrently with AddBlock (placed inside storeBlock)
 	FlushGC     bool   `json:"flushgc"`  // run the GC step after harness-driven flushes
 	RestartPlan []int  `json:"restarts"` // heights after which the node is stopped and reopened
 }
